@@ -14,7 +14,7 @@ from engine.runner import jnum, unj, active_regions
 ID = 'C16'
 ENGINE = 'PYSYM'
 TECHNIQUE = 'symbolic execution of KMeans.fit (serial) incl. k-means++ / random initialisation, assignment, empty-cluster repair, DBA update and final assignment on symbolic series; random draws are nondeterministic choices explored exhaustively; the returned partition is compared by z3 with oracle DTW distances to the returned means'
-BUDGET = {'quick': 420, 'thorough': 3000}
+BUDGET = {'quick': 420, 'thorough': 1800}
 SOURCES = ['src/dtaidistance/clustering/kmeans.py', 'src/dtaidistance/clustering/medoids.py', 'src/dtaidistance/dtw_barycenter.py', 'src/dtaidistance/dtw.py']
 FUNCTIONS = ['KMeans.__init__/fit(use_parallel=False)', 'KMeans.kmeansplusplus_centers', 'kmeans._distance_with_params, _dba_loop_with_params', 'dtw_barycenter.dba_loop / dba']
 BOUNDS = {'quick': {'n series': '3', 'series length': '1..2 (max_it = 1: length 1)', 'k': '2', 'max_it': '0, 1', 'max_dba_it': '1', 'initialisation': 'random, k-means++ (sample size 1; max_it = 0)',
